@@ -3,6 +3,7 @@ package main
 import (
 	"encoding/json"
 	"fmt"
+	"github.com/google/safehtml/template"
 	"go/ast"
 	"go/importer"
 	"go/parser"
@@ -460,6 +461,44 @@ func checkC19(r *core.Run) {
 			compiledOK++
 		}
 	}
+	// zero values of the trusted types, which any client can write, must not grant anything: in particular the zero
+	// TrustedFS / TrustedSource must not give access to files named by run-time strings
+	zeroProbes := []struct {
+		name string
+		f    func() error
+	}{
+		{"ParseFS(TrustedFS{}, name)", func() error { _, err := template.ParseFS(template.TrustedFS{}, "fixtures/hist/a.tmpl"); return err }},
+		{"(*Template).ParseFS(TrustedFS{}, pattern)", func() error {
+			_, err := template.New("x").ParseFS(template.TrustedFS{}, "fixtures/hist/*.tmpl")
+			return err
+		}},
+		{"ParseFS(TrustedFS{}.Sub(constant dir), name)", func() error {
+			sub, err := template.TrustedFS{}.Sub(template.TrustedSourceFromConstant("fixtures"))
+			if err != nil {
+				return err
+			}
+			_, err = template.ParseFS(sub, "hist/a.tmpl")
+			return err
+		}},
+		{"ParseFS(TrustedFSFromTrustedSource(TrustedSource{}), name)", func() error {
+			_, err := template.ParseFS(template.TrustedFSFromTrustedSource(template.TrustedSource{}), "fixtures/hist/a.tmpl")
+			return err
+		}},
+		{"ParseFilesFromTrustedSources(TrustedSource{})", func() error { _, err := template.ParseFilesFromTrustedSources(template.TrustedSource{}); return err }},
+		{"TrustedSourceJoin(TrustedSource{}) then ParseFiles", func() error {
+			_, err := template.ParseFilesFromTrustedSources(template.TrustedSourceJoin(template.TrustedSource{}, template.TrustedSource{}))
+			return err
+		}},
+	}
+	for _, zp := range zeroProbes {
+		var err error
+		if p, msg := core.Try(func() { err = zp.f() }); p {
+			r.Witness("zero-value-grants-access", "", zp.name, zp.name+" panicked: "+msg, nil)
+		} else if err == nil {
+			r.Witness("zero-value-grants-access", "", zp.name, zp.name+" succeeded: the zero value of a trusted type gives access to files chosen by a run-time string", nil)
+		}
+	}
+	r.Set("zero_value_probes", len(zeroProbes))
 	r.Set("evaluations", int64(len(clients)+len(elems)))
 	r.Set("distinct_nontrivial", failedOK)
 	r.Set("programs", int64(len(clients)))
